@@ -105,7 +105,9 @@ func DeBlobProgramCode(data []byte) (_ Program, _ ExitReason) {
 	}
 	data = data[dataUsed:]
 
-	if jumpTableLength*jumpTableSize >= 1<<32 {
+	// |j| itself must fit 32 bits: otherwise the 64-bit product below can wrap to a small value
+	// and a table of a few bytes would be accepted for a count of billions of entries
+	if jumpTableSize >= 1<<32 || jumpTableLength*jumpTableSize >= 1<<32 {
 		pvmLogger.Errorf("jump table size %d bits exceed litmit of 32 bits", jumpTableLength*jumpTableSize)
 		return Program{}, ExitPanic
 		// panic("the jump table's size is supposed to be at most 32 bits")
